@@ -531,6 +531,9 @@ def gen_idxarr_cases(tier, rng):
     return cases
 
 
+_CTX = {}
+
+
 def _npz_roundtrip(x):
     import io
 
@@ -618,6 +621,34 @@ def _diff_calls():
         "gcxs_stack": lambda x: sparse.stack([gcxs(x), gcxs(x)], axis=0),
         "gcxs_dot": lambda x: sparse.dot(gcxs(x), gcxs(x).T) if x.ndim == 2 else sparse.dot(gcxs(x), gcxs(x)),
     }
+
+    # an operation grows an axis beyond the operand's index type by BROADCASTING (how="bcast": x has shape (1, 5),
+    # _CTX["N"] is the new extent): broadcast_to, element-wise with a length-1 axis, with an operand lacking the axis
+    def grown():
+        return int(_CTX["N"])
+
+    def zcol():        # (N, 1) intp-coords array with a few stored elements, incl. the last row
+        n = grown()
+        rows = sorted({0, 1, n // 2, n - 2, n - 1})
+        return sparse.COO(np.array([rows, [0] * len(rows)]), np.arange(2, 2 + len(rows)), shape=(n, 1))
+    calls.update({
+        "bc_to": lambda x: x.broadcast_to((grown(), x.shape[1])),
+        "bc_to_sum": lambda x: x.broadcast_to((grown(), x.shape[1])).sum(axis=1),
+        "bc_mul": lambda x: x * zcol(),
+        "bc_add": lambda x: x + zcol(),
+        "bc_missing_axis": lambda x: x[0] * zcol(),
+        "bc_missing_axis_to": lambda x: x[0].broadcast_to((grown(), x.shape[1])),
+        "bc_outer": lambda x: sparse.kron(zcol(), x),
+        "bc_where": lambda x: sparse.where(zcol() > 2, x, 0),
+    })
+    # argmax / argmin on UNPRUNED inputs (stored values equal to the fill value; how="unpruned")
+    calls.update({
+        "up_argmax": lambda x: sparse.argmax(x), "up_argmin": lambda x: sparse.argmin(x),
+        "up_argmax_0": lambda x: sparse.argmax(x, axis=0), "up_argmin_0": lambda x: sparse.argmin(x, axis=0),
+        "up_argmax_last": lambda x: sparse.argmax(x, axis=-1), "up_argmin_last": lambda x: sparse.argmin(x, axis=-1),
+        "up_argmax_0_keep": lambda x: sparse.argmax(x, axis=0, keepdims=True),
+        "up_max_0": lambda x: x.max(axis=0), "up_dense": lambda x: x.todense(),
+    })
 
     # GCXS built with an EXPLICIT narrow index dtype (no automatic widening), then reduced / re-compressed
     def gx(x):
@@ -712,6 +743,21 @@ def impl_diff(case):
                     n = len(coords)
                     c = np.array(coords, dtype=np.int64).reshape(n, len(shape)).T.astype(tt)
                     x = sparse.COO(c, np.arange(1, n + 1, dtype=np.int64), shape=tuple(shape))   # sorts + sums duplicates
+                elif how == "bcast":
+                    _CTX["N"] = coords[0]
+                    x = _coo([1, 5], [[0, 0], [0, 2], [0, 4]], tt)
+                elif how == "unpruned":
+                    fill, seedv = coords
+                    rs = np.random.default_rng(seedv)
+                    d = rs.integers(-2, 3, size=tuple(shape))
+                    mask = rs.random(tuple(shape)) < 0.5
+                    idxs = np.argwhere(mask)
+                    vals = d[mask]
+                    vals[rs.random(len(vals)) < 0.5] = fill          # stored elements equal to the fill value
+                    for r in range(min(2, shape[0])):                 # whole lines whose stored elements all equal the fill
+                        vals[idxs[:, 0] == r] = fill
+                    x = sparse.COO(idxs.T.astype(tt), vals, shape=tuple(shape), fill_value=fill, prune=False,
+                                   sorted=True, has_duplicates=False)
                 elif how == "rand3d":
                     rs = np.random.default_rng(7)
                     d = rs.integers(1, 9, size=tuple(shape)) * (rs.random(tuple(shape)) < 0.08)
@@ -1000,7 +1046,7 @@ def gen_prim_cases(tier, rng):
 
 # calls whose cost is dominated by compiling Numba kernels for the index dtype: in the quick tier they run for the
 # narrowest signed / unsigned types, one 16-bit type and uint64 only (all eight types in the thorough tier)
-JIT_HEAVY = {"dot_T", "matmul_self", "tensordot_11", "einsum_ji_i", "einsum_ji_i_fancy", "einsum_ji_i_item", "flip_fancy", "ms_join_dense", "ms_join_ca1_dense", "ms_join_ca1_sum", "ms_join_cca2", "ms_join_cca2_tocoo", "ms_join_T",
+JIT_HEAVY = {"bc_where", "dot_T", "matmul_self", "tensordot_11", "einsum_ji_i", "einsum_ji_i_fancy", "einsum_ji_i_item", "flip_fancy", "ms_join_dense", "ms_join_ca1_dense", "ms_join_ca1_sum", "ms_join_cca2", "ms_join_cca2_tocoo", "ms_join_T",
              "ms_join_T_dense", "ms_join_reshape_sum", "ms_join_flat", "ms_stack_cca", "ms_join_sum0", "ms_join_max12",
              "gcxs_fancy_rep", "sort", "dot", "gcxs_dot", "getitem_fancy", "getitem_last", "getitem_int", "gcxs_getitem", "gcxs_getitem_neg",
              "gcxs_stack", "gcxs_reshape", "gcxs_concat", "gcxs_concat_dense", "to_gcxs_back", "gcxs_T", "gcxs_sum0",
@@ -1017,7 +1063,24 @@ NO_REJECT = ("npz_", "transpose", "sum_", "max_", "min_", "any_", "getitem_", "f
 def gen_diff_items(tier, rng):
     items = []
     allnames = list(_diff_calls().keys())
-    names = [n for n in allnames if not n.startswith(("ms_", "us_", "gx_"))]
+    names = [n for n in allnames if not n.startswith(("ms_", "us_", "gx_", "bc_", "up_"))]
+    # an axis grown by broadcasting to capacity-1 .. capacity+2 positions of the operand's index type
+    for t in TYPES:
+        cap = thi(t) + 1
+        ns = [cap - 1, cap, cap + 1, cap + 2] if tbits(t)[0] <= 16 else [300]
+        if tier == "quick" and tbits(t)[0] == 16:
+            ns = [cap, cap + 1]
+        for n in ns:
+            for name in allnames:
+                if name.startswith("bc_"):
+                    items.append((name, [1, 5], [n], t, "bcast"))
+    # argmax / argmin with stored fill-equal values, fills 0 / 1 / -1, every index type
+    for t in TYPES:
+        for k, shape in enumerate(([4, 6], [6, 3, 4]) if tier == "quick" else ([4, 6], [6, 3, 4], [9], [3, 3, 3])):
+            for fill in (0, 1, -1):
+                for name in allnames:
+                    if name.startswith("up_"):
+                        items.append((name, shape, [fill, 10 * k + fill + 1], t, "unpruned"))
     # GCXS with an explicit narrow index dtype: small compressed shape, re-compression grows the row count
     for t in TYPES:
         for shape in ([20, 20, 3], [17, 16, 2], [3, 20, 20]) if tbits(t)[0] == 8 else ([200, 200, 3],) if tbits(t)[0] == 16 else ([20, 20, 3],):
